@@ -1009,11 +1009,38 @@ pub fn gen_c04(thorough: bool, rng: &mut Rng, out: &mut Vec<String>) {
         out.push(format!("lef.dbu {} {}", m, s));
     }
 }
+/// a long quoted literal with blanks inside: 1.5k … 6k bytes, longer than any line length a writer might wrap at
+fn long_literal(rng: &mut Rng) -> String {
+    let n = 1500 + rng.below(4500) as usize;
+    let mut b = String::new();
+    while b.len() < n {
+        let w: &str = *rng.pick(&["lorem", "w", "größe", "x1", "#", ";", "END"]);
+        b.push_str(w);
+        b.push(' ');
+        if rng.chance(1, 9) { b.push(' '); }
+    }
+    format!("\"{}\"", b)
+}
+/// put long literals where the library holds quoted strings (the ops of C05 carry the text, so `gen_lib(seed)` stays as it was)
+fn lengthen(lib: &mut LefLibrary, rng: &mut Rng) {
+    for m in lib.macros.iter_mut() {
+        for p in m.properties.iter_mut() { if rng.coin() { p.value = long_literal(rng); } }
+        for pin in m.pins.iter_mut() {
+            if pin.net_expr.is_some() && rng.coin() { pin.net_expr = Some(long_literal(rng)); }
+            for p in pin.properties.iter_mut() { if rng.coin() { p.value = long_literal(rng); } }
+        }
+    }
+    for pd in lib.property_definitions.iter_mut() {
+        if let LefPropertyDefinition::LefString(_, _, Some(v)) = pd { if rng.coin() { *v = long_literal(rng); } }
+    }
+    for e in lib.extensions.iter_mut() { if rng.coin() { e.data = format!("{} {}", long_literal(rng), e.data); } }
+}
 pub fn gen_c05(thorough: bool, rng: &mut Rng, out: &mut Vec<String>) {
     let nlib = if thorough { 8000 } else { 800 };
     for i in 0..nlib {
         let libseed = rng.next() % 1_000_000_007;
-        let lib = gen_lib(libseed);
+        let mut lib = gen_lib(libseed);
+        if i % 16 == 5 { lengthen(&mut lib, rng); }
         let txt = render(&lib, if i % 2 == 0 { 0 } else { rng.below(1 << 40) });
         out.push(format!("lef.wr {}", text_hex(&txt)));
         out.push(format!("lef.wtokens {}", text_hex(&txt)));
